@@ -36,13 +36,17 @@ def gen_ty(rng, p_opt=0.25, p_union=0.06):
     if r < 0.40:
         t = base_ty(rng)
     elif r < 0.50:
-        kind = rng.choice(["int", "str", "bool", "mixed"])
+        kind = rng.choice(["int", "str", "bool", "mixed", "mixed", "collide"])
         if kind == "int":
             vals = [{"t": "int", "v": str(i)} for i in rng.sample([0, 1, 2, 3, 10], rng.randint(2, 3))]
         elif kind == "str":
             vals = [{"t": "str", "v": s} for s in rng.sample(["a", "b", "bob", "x_y", "0"], rng.randint(2, 3))]
         elif kind == "bool":
             vals = [{"t": "bool", "v": True}, {"t": "bool", "v": False}]
+        elif kind == "collide":
+            # two values with the same str(): the name -> value table keeps the last one (field_wrapper.py:891)
+            vals = rng.choice([[{"t": "str", "v": "0"}, {"t": "int", "v": "0"}], [{"t": "int", "v": "0"}, {"t": "str", "v": "0"}],
+                               [{"t": "str", "v": "True"}, {"t": "bool", "v": True}], [{"t": "int", "v": "1"}, {"t": "str", "v": "1"}, {"t": "int", "v": "2"}]])
         else:
             vals = [{"t": "int", "v": "0"}, {"t": "str", "v": "zero"}, {"t": "int", "v": "1"}]
         return {"k": "literal", "vals": vals}  # Literal is never wrapped in Optional here
@@ -101,6 +105,19 @@ def gen_value(rng, t, allow_none=True):
     if k == "vtuple":
         return {"t": "tuple", "v": [gen_scalar(rng, t["item"]) for _ in range(rng.choice([0, 1, 2, 4]))]}
     return gen_scalar(rng, t)
+
+
+def literal_expressible(t, v):
+    """For a Literal value: the value its command-line token actually denotes. The library's name -> value table
+    ({str(v): v}, field_wrapper.py:891) keeps the LAST value among those with the same str(): an earlier one
+    (`"0"` in Literal["0", 0]) has no token of its own."""
+    if t.get("k") != "literal" or v.get("t") not in ("int", "str", "bool"):
+        return v
+    out = v
+    for w in t["vals"]:
+        if w.get("t") in ("int", "str", "bool") and token(w) == token(v):
+            out = w
+    return dict(out)
 
 
 def token(v) -> str:
